@@ -3,6 +3,7 @@ package main
 import (
 	"bytes"
 	"crypto/sha256"
+	"encoding/json"
 	"encoding/hex"
 	"fmt"
 	"io"
@@ -60,8 +61,50 @@ func newConf() *model.Configuration {
 	return c
 }
 
-func setupMaterial(t *vk.T) *material {
-	m := &material{root: t.Scratch()}
+// manifest is what the parent hands to the shards: everything that needs pdfcpu calls to be prepared
+// (font installation, document selection) is done once in the parent, so that a shard's first pdfcpu
+// call of any kind happens inside a concurrent round (lazy initialisation is part of what is observed).
+type manifest struct {
+	Docs    []string   `json:"docs"` // names; bytes are in <dir>/doc<i>.pdf
+	VerDirs []string   `json:"ver_dirs"`
+	Names   [][]string `json:"names"`
+}
+
+// loadMaterial is the shard side: no pdfcpu call except pointing font.UserFontDir at a private symlink.
+func loadMaterial(t *vk.T, dir string) *material {
+	var mf manifest
+	b, err := os.ReadFile(filepath.Join(dir, "manifest.json"))
+	if err != nil {
+		t.Broken("material: %v", err)
+	}
+	if err := json.Unmarshal(b, &mf); err != nil {
+		t.Broken("material: %v", err)
+	}
+	m := &material{root: t.Scratch(), verDirs: mf.VerDirs, names: mf.Names, common: []string{commonFont}}
+	rd := func(name string) []byte {
+		b, err := os.ReadFile(filepath.Join(dir, name))
+		if err != nil {
+			t.Broken("material: %v", err)
+		}
+		return b
+	}
+	for i, n := range mf.Docs {
+		m.docs = append(m.docs, doc{n, rd(fmt.Sprintf("doc%d.pdf", i))})
+	}
+	m.formEN, m.jsonEN = doc{"form/english.pdf", rd("english.pdf")}, rd("english.json")
+	m.formUK, m.jsonUK = doc{"form/ukrainian.pdf", rd("ukrainian.pdf")}, rd("ukrainian.json")
+	m.fontDir = filepath.Join(m.root, "fonts")
+	if err := os.Symlink(m.verDirs[0], m.fontDir); err != nil {
+		t.Broken("symlink: %v", err)
+	}
+	font.UserFontDir = m.fontDir
+	return m
+}
+
+// prepareMaterial is the parent side; it returns the directory holding the manifest.
+func prepareMaterial(t *vk.T) string {
+	m := &material{root: filepath.Join(t.Scratch(), "material")}
+	_ = os.MkdirAll(m.root, 0o755)
 	repo := vk.RepoDir()
 
 	// fonts: one directory per version, filled by the real installer
@@ -97,19 +140,16 @@ func setupMaterial(t *vk.T) *material {
 		m.names = append(m.names, names)
 		m.verDirs = append(m.verDirs, dir)
 	}
-	m.common = []string{commonFont}
-	m.fontDir = filepath.Join(m.root, "fonts")
-	if err := os.Symlink(m.verDirs[0], m.fontDir); err != nil {
-		t.Broken("symlink: %v", err)
-	}
-	font.UserFontDir = m.fontDir
-	if err := font.ReloadUserFonts(); err != nil {
-		t.Broken("ReloadUserFonts: %v", err)
-	}
-	got, _ := font.UserFontNames()
-	sort.Strings(got)
-	if strings.Join(got, ",") != strings.Join(m.names[0], ",") {
-		t.Broken("font registry after setup: %v, want %v", got, m.names[0])
+	for v, dir := range m.verDirs {
+		font.UserFontDir = dir
+		if err := font.ReloadUserFonts(); err != nil {
+			t.Broken("ReloadUserFonts: %v", err)
+		}
+		got, _ := font.UserFontNames()
+		sort.Strings(got)
+		if strings.Join(got, ",") != strings.Join(m.names[v], ",") {
+			t.Broken("font registry for version %d: %v, want %v", v, got, m.names[v])
+		}
 	}
 
 	// documents: small corpus files + generated ones
@@ -167,9 +207,23 @@ func setupMaterial(t *vk.T) *material {
 		}
 		return b
 	}
-	m.formEN, m.jsonEN = doc{"form/english.pdf", rd("demoSinglePage", "english.pdf")}, rd("fill", "english.json")
-	m.formUK, m.jsonUK = doc{"form/ukrainian.pdf", rd("demoSinglePage", "ukrainian.pdf")}, rd("fill", "ukrainian.json")
-	return m
+	wr := func(name string, b []byte) {
+		if err := os.WriteFile(filepath.Join(m.root, name), b, 0o644); err != nil {
+			t.Broken("material: %v", err)
+		}
+	}
+	wr("english.pdf", rd("demoSinglePage", "english.pdf"))
+	wr("english.json", rd("fill", "english.json"))
+	wr("ukrainian.pdf", rd("demoSinglePage", "ukrainian.pdf"))
+	wr("ukrainian.json", rd("fill", "ukrainian.json"))
+	mf := manifest{VerDirs: m.verDirs, Names: m.names}
+	for i, d := range m.docs {
+		mf.Docs = append(mf.Docs, d.Name)
+		wr(fmt.Sprintf("doc%d.pdf", i), d.Data)
+	}
+	b, _ := json.Marshal(mf)
+	wr("manifest.json", b)
+	return m.root
 }
 
 // ---------------------------------------------------------------------------------------------
